@@ -88,16 +88,22 @@ def _bytes_to_num(arg, out_typ, signed):
             raise CodegenPanic("convert: unbounded bytestring type")
         _len = get_bytearray_length(arg)
         arg = LOAD(bytes_data_ptr(arg))
-        num_zero_bits = ["mul", 8, ["sub", 32, _len]]
+        # zero-extend, then sign-extend from the most significant byte of
+        # the bytestring. (`sar` by 256 bits for an empty bytestring would
+        # give -1 whenever the stale word behind the length has its top
+        # bit set; `signextend` with byte index -1 is the identity.)
+        ret = shr(["mul", 8, ["sub", 32, "len"]], arg)
+        if signed:
+            ret = ["signextend", ["sub", "len", 1], ret]
+        ret = ["with", "len", _len, ret]
     elif is_bytes_m_type(arg.typ):
         num_zero_bits = 8 * (32 - arg.typ.m)
+        if signed:
+            ret = sar(num_zero_bits, arg)
+        else:
+            ret = shr(num_zero_bits, arg)
     else:  # pragma: nocover
         raise CompilerPanic("unreachable")
-
-    if signed:
-        ret = sar(num_zero_bits, arg)
-    else:
-        ret = shr(num_zero_bits, arg)
 
     annotation = (f"__intrinsic__byte_array_to_num({out_typ})",)
     return IRnode.from_list(ret, annotation=annotation)
@@ -216,6 +222,10 @@ def _signextend(expr, val, arg_typ):
     else:
         assert len(expr.value) == arg_typ.maxlen
         n_bits = arg_typ.maxlen * 8
+
+    if n_bits == 0:
+        # empty bytestring literal: the value is 0
+        return val
 
     return unsigned_to_signed(val, n_bits)
 
